@@ -5,7 +5,7 @@ behaviour) and what is declined (clauses that quantify over runtime values no st
 reach can bound)."""
 from .properties import prop
 
-prop('C01', ['K1', 'M1', 'M2', 'M3', 'M7', 'T4', 'DC1', 'DC4', 'M8', 'U1', 'CL1'],
+prop('C01', ['K1', 'M1', 'M2', 'M3', 'M7', 'T4', 'DC1', 'DC4', 'M8', 'U1', 'CL1', 'VG2'],
      'Round trip, structural part. Decided from the source: every PyTreeKind switch is exhaustive '
      '(K1); for each of the 9 container kinds the three node producers store the same metadata '
      'shape and take the arity from the container they enumerate (M1); MakeNode reads each shape '
@@ -20,7 +20,7 @@ prop('C01', ['K1', 'M1', 'M2', 'M3', 'M7', 'T4', 'DC1', 'DC4', 'M8', 'U1', 'CL1'
      ['identity of leaf objects at every position', 'equality of the re-flattened treespec',
       'any n replacement leaves round-trip'])
 
-prop('C02', ['AL1', 'K5', 'K6', 'NS1', 'K2', 'D2', 'T2', 'M7', 'K4', 'T1', 'T1e', 'T3', 'T3b', 'L6', 'G9', 'T10'],
+prop('C02', ['AL1', 'K5', 'K6', 'NS1', 'K2', 'D2', 'T2', 'M7', 'K4', 'T1', 'T1e', 'T3', 'T3b', 'L6', 'G9', 'T10', 'VG2'],
      'Leaf order and classification, structural part: the user predicate is consulted before the '
      'registry and a true answer never reaches it (K5, on the CFG of all 5 classification sites); '
      'lookup order namespace map -> global map -> struct sequence -> namedtuple with the exact '
@@ -58,7 +58,7 @@ prop('C04', ['T5', 'N1', 'N2', 'N3', 'N4', 'N5', 'N6', 'F8', 'M4', 'K4', 'VG1'],
      'node_entries (M4); the backwards walkers reverse their result (K4).',
      ['accessor(tree) is the leaf', 'prefix-freeness of paths', 'codify/eval agreement'])
 
-prop('C05', ['F1', 'F14', 'F2', 'F3', 'F4', 'F11', 'W2', 'K3', 'M7', 'P1', 'P4', 'M2', 'M3', 'W1', 'U1', 'L6', 'B1', 'CL1'],
+prop('C05', ['F1', 'F14', 'F2', 'F3', 'F4', 'F11', 'W2', 'K3', 'M7', 'P1', 'P4', 'M2', 'M3', 'W1', 'U1', 'L6', 'B1', 'CL1', 'VG2'],
      'tree_map family, structural part: options forwarded unchanged (F1); the six map functions, '
      'three transpose-map and three broadcast-map functions are one normal form modulo the '
      'declared variation points, with the extra iterable first (F2); every rest is matched by an '
@@ -82,7 +82,7 @@ prop('C06', ['H1', 'H4', 'H2', 'H6', 'H3', 'P5', 'H5', 'M1', 'M5', 'M6', 'S1', '
      'The routes by which a treespec is obtained (flatten, constructors, children, compose, transform, unpickling) write the same node shapes and counts, which is what == and hash read (M1, M5, M6, S1).',
      ['equality semantics across construction routes'])
 
-prop('C07', ['P1', 'P2cxx', 'P2py', 'P3', 'P4', 'W1', 'H3', 'F12', 'F13', 'K3', 'M7', 'P5', 'H5', 'K2', 'NS1', 'T4', 'CL1'],
+prop('C07', ['P1', 'P2cxx', 'P2py', 'P3', 'P4', 'W1', 'H3', 'F12', 'F13', 'K3', 'M7', 'P5', 'H5', 'K2', 'NS1', 'T4', 'CL1', 'VG2'],
      'Prefix matching: per kind, the attributes compared by IsPrefix, FlattenUpTo, the broadcast '
      'walker and prefix_errors equal the reference table of the property statement (P1); '
      'structural mismatch raises ValueError only, prefix_errors constructs only ValueError, sorts '
@@ -96,7 +96,7 @@ prop('C07', ['P1', 'P2cxx', 'P2py', 'P3', 'P4', 'W1', 'H3', 'F12', 'F13', 'K3', 
      'flatten_up_to looks custom nodes up in the variant and namespace of the treespec (K2, NS1); prefix_errors walks with the one-level handlers of the Python registry (T4).',
      ['exactness over all pairs', 'offset arithmetic of the re-ordering branch'])
 
-prop('C08', ['I3', 'M5', 'M5b', 'M6', 'F9', 'F12', 'W3', 'T6', 'K1', 'K3', 'M7', 'M1', 'P5', 'K2', 'K4', 'M8', 'B1', 'N1', 'N2'],
+prop('C08', ['I3', 'M5', 'M5b', 'M6', 'F9', 'F12', 'W3', 'T6', 'K1', 'K3', 'M7', 'M1', 'P5', 'K2', 'K4', 'M8', 'B1', 'N1', 'N2', 'VG2'],
      'Inspection / constructors: entry(i)/child(i) range test and normalisation dominate all uses '
      'of the index (I3); every new treespec gets none_is_leaf and namespace from its source(s) and '
      'passes the sanity check before it escapes (M5, 14 creation sites); a treespec derived from '
@@ -109,7 +109,7 @@ prop('C08', ['I3', 'M5', 'M5b', 'M6', 'F9', 'F12', 'W3', 'T6', 'K1', 'K3', 'M7',
      'The constructor dispatch takes the variant of the flag (K2); children are listed left to right although the node array is walked backwards (K4).',
      ['count identities', 'transform/compose algebra', 'repr text'])
 
-prop('C09', ['M4', 'M5b', 'P1', 'P4', 'K4', 'F1', 'F14', 'F2', 'F11', 'F13', 'M2', 'P5', 'H5'],
+prop('C09', ['M4', 'M5b', 'P1', 'P4', 'K4', 'F1', 'F14', 'F2', 'F11', 'F13', 'M2', 'P5', 'H5', 'VG2'],
      'Broadcasting, structural part: the merge walker copies every payload field of a node (M4); '
      'the result namespace comes from both operands (M5b); '
      'its kind x kind compatibility equals the prefix matchers\' (P1) and dict children are paired '
@@ -129,7 +129,7 @@ prop('C10', ['F6', 'F2', 'F1', 'F14', 'P1', 'M2', 'M3'],
      'built from - flatten_up_to matching (P1) and unflatten (M2, M3) - keep their contracts.',
      ['involution law', 'value placement for all shapes'])
 
-prop('C11', ['S1', 'S2', 'S3', 'K2', 'NS1'],
+prop('C11', ['S1', 'S2', 'S3', 'K2', 'NS1', 'VG2'],
      'Pickling: writer and reader use the same position -> field table and every Node field is in '
      'it (S1); custom nodes are re-bound with the recorded namespace and the matching variant, a '
      'null registration is rejected (S2, K2); the reader validates the shapes later unchecked '
@@ -137,7 +137,7 @@ prop('C11', ['S1', 'S2', 'S3', 'K2', 'NS1'],
      'The loader looks custom types up in the recorded namespace (NS1).',
      ['cross-process behaviour', 'protocols', 'post-load equality'])
 
-prop('C12', ['G7', 'G1', 'G2', 'G3', 'G4', 'G8', 'G5', 'G6', 'L4', 'K6', 'K6py', 'NS1', 'D4', 'D5', 'I5', 'B1', 'G9', 'L6', 'CL1', 'VG1'],
+prop('C12', ['G7', 'G1', 'G2', 'G3', 'G4', 'G8', 'G5', 'G6', 'L4', 'K6', 'K6py', 'NS1', 'D4', 'D5', 'I5', 'B1', 'G9', 'L6', 'CL1', 'VG1', 'VG2'],
      'Registry: validation dominates mutation and nothing fallible follows the first mutation '
      '(G1); no C-API failure result is ignored (G2); the Python mirror is written only after the '
      'engine call, under the lock, with the same key, by exactly two functions (G3); a mutation '
@@ -164,7 +164,7 @@ prop('C14', ['A1', 'A3', 'A5', 'A6', 'A7', 'G5', 'M3', 'A8'],
      'call (A5); the Python package reads a mapping of the caller by a computed key only after a key-set comparison has excluded missing keys - a defaultdict would answer such a read by inserting into the tree of the caller (A6) - and mutates in place only containers it created itself (A7); key lists are copies (M3); registry references are paired (G5); std::move is applied only to what the call itself owns - never to a C++ object inside a Python object, a reference parameter or a member of *this (A8).',
      ['observational immutability over histories'])
 
-prop('C15', ['E1', 'E2', 'E3', 'E4', 'E5', 'E6', 'K7', 'I2', 'A5', 'D1', 'U1'],
+prop('C15', ['E1', 'E2', 'E3', 'E4', 'E5', 'E6', 'K7', 'I2', 'A5', 'D1', 'U1', 'VG2'],
      'Failing callbacks, structural part: guard sets are cleaned on every exit (E1); raw owned '
      'references are released on every path (E2); stealing sinks get owned references (E3); no '
      'user code between allocation and fill of a tuple/list (E4); only the TypeError fallbacks of '
@@ -174,7 +174,7 @@ prop('C15', ['E1', 'E2', 'E3', 'E4', 'E5', 'E6', 'K7', 'I2', 'A5', 'D1', 'U1'],
      'the with-block, whatever the body raises (D1). Thorough tier: X1 across 4 CPython configurations.',
      ['reference-count equality after a fault at every k'], thorough_rules=['X1'])
 
-prop('C16', ['K8', 'K9', 'K9py', 'K7', 'I1', 'I2', 'I3', 'I4', 'I5', 'S3', 'U1', 'L6'],
+prop('C16', ['K8', 'K9', 'K9py', 'K7', 'I1', 'I2', 'I3', 'I4', 'I5', 'S3', 'U1', 'L6', 'VG2'],
      'Memory safety / recursion, structural part: the three forward traversals share one depth '
      'discipline (K8); every recursive cycle of the engine call graph is bounded by '
      'MAX_RECURSION_DEPTH (K9) and Python-level recursion over tree depth is enumerated (K9py); no '
@@ -197,7 +197,7 @@ prop('C17', ['L1', 'L2', 'L3', 'L4', 'L5', 'T3', 'T3b', 'G3', 'L6'],
      'queue on a lock that releases the GIL instead of on the engine mutex (G3).',
      ['linearizability over schedules'])
 
-prop('C18', ['T1', 'T1e', 'T2', 'T3', 'T3b', 'T4', 'T5', 'T6', 'T7', 'T8', 'K7py', 'T9', 'K6py', 'T10', 'VG1'],
+prop('C18', ['T1', 'T1e', 'T2', 'T3', 'T3b', 'T4', 'T5', 'T6', 'T7', 'T8', 'K7py', 'T9', 'K6py', 'T10', 'VG1', 'VG2'],
      'Twins: both recognisers test the same atoms (T1); the key sort twin has the same stages and '
      'last resort (T2); cached answers and address-keyed memos are evicted with the class (T3, '
      'T3b); one-level handlers (T4), '
